@@ -81,9 +81,20 @@ pub trait AggValidExt<T: IsNone>: IntoIterator<Item = T> + Sized {
         U::Inner: Cast<bool>,
         T::Inner: Number,
     {
-        let (n, sum) = self.n_vsum_filter(mask);
+        // accumulate in f64: the sum of an integer series may not fit its element type
+        let (n, sum) = self
+            .into_iter()
+            .zip(mask)
+            .filter_map(|(v, flag)| {
+                if flag.not_none() && flag.unwrap().cast() {
+                    Some(v)
+                } else {
+                    None
+                }
+            })
+            .vfold_n(0f64, |acc, x| acc + x.f64());
         if n >= min_periods {
-            sum.f64() / n.f64()
+            sum / n.f64()
         } else {
             f64::NAN
         }
